@@ -5,10 +5,14 @@ pub mod c02;
 pub mod c03;
 pub mod c04;
 pub mod c05;
+pub mod c06;
 pub mod c09;
 pub mod common;
 pub mod xfer;
+pub mod c10;
 pub mod c18;
+pub mod c19_backoff;
+pub mod c19b;
 pub mod c20;
 
 pub fn dispatch(args: &Args) -> Report {
@@ -17,8 +21,11 @@ pub fn dispatch(args: &Args) -> Report {
         "C03" => c03::run(args),
         "C04" => c04::run(args),
         "C05" => c05::run(args),
+        "C06" => c06::run(args),
         "C09" => c09::run(args),
+        "C10" => c10::run(args),
         "C18" => c18::run(args),
+        "C19B" => c19b::run(args),
         "C20" => c20::run(args),
         other => panic!("no driver for {other}"),
     }
